@@ -32,7 +32,7 @@ Definition rerr_code (e : rerr) : N :=
   match e with
   | EGzipHeader => 1 | EFraming => 2 | EReadMeta => 3 | EDecodeMeta => 4 | EReadState => 5
   | EReadSums => 6 | EUnexpected => 7 | ESumsParse => 8 | EListMissing => 9
-  | EHashMismatch => 10 | EFileMissing => 11 | EGzipTrailer => 12
+  | EHashMismatch => 10 | EFileMissing => 11 | EGzipTrailer => 12 | ENotInArchive => 13
   end%N.
 
 Definition result_eqb (a b : result (N * bytes)) : bool :=
